@@ -211,6 +211,36 @@ class Snippet:
         self.text = self.text[:k] + mark(text.rstrip() + '\n') + self.text[k:]
         self.splices += 1
 
+    def tail_ident(self):
+        """Name of the local returned by the tail expression of the fn body (the body ends with a bare identifier)."""
+        mask = _mask_keep_marks(self.text)
+        cb = mask.rfind('}')
+        m = re.search(r'(\b[a-z_]\w*)\s*$', mask[:cb])
+        if not m or mask[:m.start()].rstrip()[-1:] not in (';', '}', '{'):
+            raise LostAnchor("%s: the body does not end with a bare local" % self.label)
+        return m.group(1)
+
+    def insert_before_tail(self, text):
+        """Splice proof text before the tail expression of the fn body (the last non-blank line before the closing brace), whatever
+        the tail expression is called."""
+        self._freeze()
+        mask = _mask_keep_marks(self.text)
+        cb = mask.rfind('}')
+        if cb < 0:
+            raise LostAnchor("%s: no closing brace" % self.label)
+        k = cb
+        # start of the last line (before the brace) that carries code
+        while True:
+            ls = self.text.rfind('\n', 0, k)
+            if ls < 0:
+                raise LostAnchor("%s: no tail expression" % self.label)
+            line = mask[ls + 1:k]
+            if line.strip():
+                break
+            k = ls
+        self.text = self.text[:ls + 1] + mark(text.rstrip() + '\n') + self.text[ls + 1:]
+        self.splices += 1
+
     def body_prologue(self, text):
         """Splice proof text right after the opening brace of the fn body."""
         self._freeze()
